@@ -511,6 +511,7 @@ SKIP_REVIEWED = {
     ("_type_check_array_size", "Expression"): "the requirement concerns the size expression itself, not its operands (R-ROOTONLY)",
     ("_type_check_array_size", "AtomicType"): "runtime parameters of an element type are not array sizes",
     ("_resolve_reference", "FieldReference"): "field-reference components are resolved, in order, by _resolve_field_reference",
+    ("_check_keyword_in_attribute_or_type_argument", "FieldReference"): "the components of a field reference are field names; keywords ($next, ...) are builtin references, never path components",
 }
 
 
